@@ -488,6 +488,75 @@ func TestVerifC08Shared(t *testing.T) {
 	rec.Exhaustive = true
 }
 
+const c08Deep = "TestVerifC08Deep"
+
+type c08DeepCase struct {
+	NShard int  `json:"nshard"`
+	DA     int  `json:"da"`
+	DB     int  `json:"db"`
+	Shared bool `json:"shared_source"`
+	MC     bool `json:"mc"`
+}
+
+var c08Depths = []int{0, 1, 2, 5, 12, 30, 60, 100}
+
+// TestVerifC08Deep enumerates Cogroup(A, B) over two deeply pipelined
+// branches (up to 100 operators each, so that the name of a stage runs to
+// hundreds of bytes): names stay unique and every stage keeps its own tasks.
+func TestVerifC08Deep(t *testing.T) {
+	rec := vt.New("C08", "deep-pipelines",
+		fmt.Sprintf("complete enumeration of Cogroup(A, B) with A, B pipelines of da, db in %v Map/Filter operators over one shared or two separate sources x shard counts {1,3} x machine combiners on/off; same checks as compile (unique names, one task per shard per stage, wiring, identical graph when compiled again and after transport); non-trivial = both branches non-empty; distinct by case", c08Depths))
+	run := func(c c08DeepCase) error {
+		return c08Check(c08Case{Spec: *progen.EnumDeep(c.NShard, 6, c.DA, c.DB, c.Shared), MachineCombiners: c.MC})
+	}
+	docs, only := vt.Replays(c08Deep)
+	for _, d := range docs {
+		var c c08DeepCase
+		if err := json.Unmarshal(d.Case, &c); err != nil {
+			t.Fatal(err)
+		}
+		rec.Case(true, vt.Hash(string(d.Case)), "replay")
+		if err := run(c); err != nil {
+			rec.Violation(c08Deep, c08Sig(err), err.Error(), c)
+			t.Errorf("replay: %v", err)
+		}
+	}
+	if only || t.Failed() {
+		return
+	}
+	idx := 0
+	failed := map[string]bool{}
+	for _, da := range c08Depths {
+		for _, db := range c08Depths {
+			for _, nshard := range []int{1, 3} {
+				for _, shared := range []bool{false, true} {
+					for _, mc := range []bool{false, true} {
+						idx++
+						if !vt.Mine(idx) {
+							continue
+						}
+						c := c08DeepCase{nshard, da, db, shared, mc}
+						nt := da > 0 && db > 0
+						rec.Case(nt, vt.Hash("deep", nshard, da, db, shared, mc), fmt.Sprintf("depth:%d", da))
+						if nt && rec.WantSample("deep") {
+							rec.Sample("deep", c)
+						}
+						if err := run(c); err != nil {
+							sig := c08Sig(err)
+							if !failed[sig] {
+								failed[sig] = true
+								rec.Violation(c08Deep, sig, err.Error(), c)
+								t.Errorf("%+v: %v", c, err)
+							}
+						}
+					}
+				}
+			}
+		}
+	}
+	rec.Exhaustive = true
+}
+
 // TestVerifC08Child is the child side of the cross-process comparison.
 func TestVerifC08Child(t *testing.T) {
 	p := os.Getenv("VERIF_C08_CASES")
